@@ -185,6 +185,14 @@ class LanguageClassesFactory:
         self._generate_assets()
         self._generate_associations()
 
+        # A language need not declare any associations (or assets). JSON
+        # Schema does not allow an empty oneOf, leave such a group out.
+        for group in ('LanguageAsset', 'LanguageAssociation'):
+            if not self.json_schema['definitions'][group]['oneOf']:
+                del self.json_schema['definitions'][group]
+                self.json_schema['oneOf'].remove(
+                    {'$ref': '#/definitions/' + group})
+
         if logger.isEnabledFor(logging.DEBUG):
             # Avoid running json.dumps when not in debug
             logger.debug(json.dumps(self.json_schema, indent = 2))
